@@ -190,12 +190,12 @@ class C01(Check):
         "seeded histories: wild events (instants 1970..2100 at any UTC offset biased to awkward microsecond values, "
         "durations 0..30 d at us granularity, nested unicode/float/null/big-int JSON) inserted singly and in bulk, "
         "replaced, deleted, read back by listing and by id; an adversary mutates objects passed in / handed out "
-        "(events, nested data, metadata dicts) at later steps; clean and dirty restarts on file backends; after every "
+        "(events, nested data, metadata dicts) at later steps; clean restarts (flush, close, reopen the file) on file backends; after every "
         "step the dump is compared with harness-held deep copies; non-trivial = at least one mutation of a held "
         "reference executed after a write; distinct = (backend, op-kind sequence)"
     )
-    expected_probes = ["mutate_event_passed_in", "mutate_event_handed_out", "mutate_metadata_passed_in", "mutate_metadata_handed_out", "restart_clean", "restart_dirty", "bulk_insert", "events_read_back", "offset_nonzero", "us_not_ms_aligned", "year_2100", "nested_data", "bulk_same_object_twice"]
-    assumptions = ["reads issued by the harness after every step flush the lazily-committing store, so a dirty restart in this check loses nothing (crash behaviour is C06's subject)"]
+    expected_probes = ["mutate_event_passed_in", "mutate_event_handed_out", "mutate_metadata_passed_in", "mutate_metadata_handed_out", "restart_clean", "bulk_insert", "events_read_back", "offset_nonzero", "us_not_ms_aligned", "year_2100", "nested_data", "bulk_same_object_twice"]
+    assumptions = ["restarts are clean (explicit flush before close): what survives an exit without shutdown is C06's subject"]
 
     def make_world(self, run, rundir):
         return AliasWorld(run["backend"], rundir)
@@ -217,7 +217,9 @@ class C01(Check):
             parties.append(actors.Reader(rs["read%d" % k], cfg, b))
         parties.append(Adversary(rs["adv"], cfg))
         parties.append(Describer(rs["desc"], cfg, buckets))
-        parties.append(actors.Operator(rs["oper"], {"dirty_p": 0.3}))
+        # restarts in this check are clean ones: whether buffered writes survive an exit without shutdown is
+        # C06's subject (a store whose reads do not flush would otherwise look like it corrupts events)
+        parties.append(actors.Operator(rs["oper"], {"dirty_p": 0.0}))
         weights = {"importer": 2.0, "editor": 0.7, "reader": 1.0, "adversary": 2.5, "describer": 0.6, "operator": 0.2}
         nsteps = r.choice([3, 6, 10, 20, 40] + ([80, 160] if tier == "thorough" else []))
         steps += actors.schedule(rs["sched"], parties, weights, nsteps)
